@@ -472,7 +472,7 @@ pub fn screen_parity(sc: &Scene) -> i32 {
 }
 
 /// Reference triangle: clip coordinates, and the triangle clipped exactly (f64) against
-/// the frustum planes pushed 1e-5 x scale outwards ("outer") and inwards ("inner"): whatever
+/// the frustum planes pushed 1e-6 x scale outwards ("outer") and inwards ("inner"): whatever
 /// f32 rounding does to the plane tests, the implementation's polygon lies between the two.
 pub struct RefTri {
     pub clip: [[f64; 4]; 3],
@@ -568,7 +568,7 @@ fn convex_margin(poly: &[P2], c: P2) -> f64 {
     }
 }
 
-pub const CLIP_SLACK: f64 = 1e-5;
+pub const CLIP_SLACK: f64 = 1e-6;
 
 pub fn ref_tri(sc: &Scene, t: usize) -> RefTri {
     let clip = clip64(sc, t);
@@ -676,9 +676,12 @@ impl RefTri {
 
 /// Distance from the origin of R^4 to the triangle (exact closest point, Ericson's
 /// region walk — it only uses dot products, so it is valid in any dimension),
-/// relative to the triangle's scale.
+/// relative to the magnitude of the triangle's smallest vertex.
 pub fn apex_closeness(tri: &[[f64; 4]; 3]) -> f64 {
-    let scale = tri.iter().flatten().fold(0.0f64, |m, v| m.max(v.abs())).max(1e-30);
+    // relative to the *smallest* vertex magnitude: a triangle with one vertex close to the eye and two far away
+    // (depths 1 and 1000 under a projection with near = 0.1) does not pass through the apex, it merely has a small
+    // vertex; what is ill-conditioned is a hull that comes much closer to the origin than any of its vertices
+    let scale = tri.iter().map(|v| v.iter().map(|c| c * c).sum::<f64>().sqrt()).fold(f64::MAX, f64::min).max(1e-30);
     let sub = |a: [f64; 4], b: [f64; 4]| -> [f64; 4] { std::array::from_fn(|k| a[k] - b[k]) };
     let dot = |a: [f64; 4], b: [f64; 4]| -> f64 { (0..4).map(|k| a[k] * b[k]).sum() };
     let add_s = |a: [f64; 4], b: [f64; 4], s: f64| -> [f64; 4] { std::array::from_fn(|k| a[k] + b[k] * s) };
